@@ -172,7 +172,8 @@ fn constraint_configs(max_each: usize) -> Vec<(Vec<ConRep>, Vec<RemRep>)> {
                         }
                         rem.push(RemRep {
                             constraint: c,
-                            reason: format!("reason-{j}"),
+                            // the empty string is a legal reason: the constraint is still reported as removed
+                            reason: if (j + *pi) % 2 == 1 { String::new() } else { format!("reason-{j}") },
                             parameters: if j == 0 { vec![("p".into(), "q".into())] } else { vec![] },
                         });
                     }
